@@ -77,7 +77,8 @@ func (p *Parser) ParseFile(filename string, varPool *VarPool) (*MetaData, []*Bui
 			Name: pkg.Name,
 			Path: pkg.PkgPath,
 		},
-		Imports: make(map[string]*Import, len(pkg.Imports)),
+		Imports:  make(map[string]*Import, len(pkg.Imports)),
+		Declared: declaredNames(pkg),
 	}
 
 	slog.Debug("kessoku package", "kessokuPkg", kessokuPkg)
@@ -180,6 +181,55 @@ func (p *Parser) ParseFile(filename string, varPool *VarPool) (*MetaData, []*Bui
 // isGeneratedOutput reports whether the file is an output file of a previous
 // kessoku run (*_band.go with the generated-code header). Such files must not
 // influence name allocation, otherwise the output depends on leftovers.
+// declaredNames collects the package-level identifiers of the files the user
+// wrote. Files carrying kessoku's own header are output of this tool.
+func declaredNames(pkg *packages.Package) map[string]struct{} {
+	names := make(map[string]struct{})
+	for _, f := range pkg.Syntax {
+		if f == nil || isKessokuOutput(f) {
+			continue
+		}
+
+		for _, decl := range f.Decls {
+			switch decl := decl.(type) {
+			case *ast.GenDecl:
+				for _, spec := range decl.Specs {
+					switch spec := spec.(type) {
+					case *ast.ValueSpec:
+						for _, name := range spec.Names {
+							names[name.Name] = struct{}{}
+						}
+					case *ast.TypeSpec:
+						names[spec.Name.Name] = struct{}{}
+					}
+				}
+			case *ast.FuncDecl:
+				if decl.Recv == nil {
+					names[decl.Name.Name] = struct{}{}
+				}
+			}
+		}
+	}
+
+	return names
+}
+
+func isKessokuOutput(f *ast.File) bool {
+	for _, group := range f.Comments {
+		if group.Pos() > f.Package {
+			break
+		}
+
+		for _, c := range group.List {
+			if c.Text == "// Code generated by kessoku. DO NOT EDIT." {
+				return true
+			}
+		}
+	}
+
+	return false
+}
+
 func (p *Parser) isGeneratedOutput(f *ast.File) bool {
 	if !ast.IsGenerated(f) {
 		return false
